@@ -150,6 +150,7 @@ def check_c13(pid, tier, seed, replay=None):
         res['viols'] += r['viols']; res['infra'] += r['infra']; res['scn_events'].update(r['scn_events']); res['drifts'] += r.get('drifts', [])
     if any(k == 'infra' for k, _, _ in problems): res['infra'].append('TLC failed on Own_MC')
     scns = enc + dec + vfs + cms
+    for s_ in dec: s_.prelude = PK.prelude([0, 1, 2, 4])
     for s in vfs:                      # vorbisfile scenarios carry their file definitions
         s.prelude = VC.bind_ids('\n'.join(VC.prelude(s.files) + list(getattr(s, 'pre', None) or [])), s.files).split('\n')
     def nontrivial(s, evs):   # something was allocated and everything was cleared at the end
